@@ -69,7 +69,9 @@ def graphs(draw, max_edges=8, features=None):
                             e['oo'].append(h)
             if pools and draw(st.integers(0, 1)) == 1:
                 e['pool'] = draw(st.sampled_from(sorted(pools)))
-            elif f['pools'] and draw(st.integers(0, 11)) == 11:
+            elif f['pools'] and draw(st.integers(0, 11)) == 11 and e['deps'] != 'msvc':
+                # (not with deps=msvc: a console command's output is not captured, so its /showIncludes notes could never
+                # be extracted - such a manifest cannot report its hidden reads)
                 e['pool'] = 'console'
             if f['rsp'] and draw(st.integers(0, 6)) == 6:
                 e['rsp'] = 'r0'
@@ -306,7 +308,9 @@ SCHED = st.lists(st.integers(0, 5), max_size=8)
 
 def build_op(fail=False):
     d = dict(op=st.just('build'), sel=st.integers(0, 40), j=st.sampled_from([1, 1, 2, 3, 8]), k=st.sampled_from([1, 1, 2, 0]),
-             sched=SCHED)
+             sched=SCHED,
+             # a source file is edited while the build runs (at the n-th wait): [] = no edit, else [wait index, source index]
+             mid=st.one_of(st.just([]), st.just([]), st.just([]), st.lists(st.integers(0, 6), min_size=2, max_size=2)))
     if fail:
         d['faults'] = st.lists(st.tuples(st.integers(0, 30), st.sampled_from([1, 2, 3, 127, 255]), st.booleans()), min_size=1, max_size=2)
     return st.fixed_dictionaries(d)
